@@ -14,3 +14,102 @@ IS_TRIVIA = [
     Fn(file=LEX, name="is_trivia", container="TokenKind", ret="r", contract="ensures r == (self is Whitespace || self is Comment),",
        obligation="trivia == {Whitespace, Comment}"),
 ]
+
+
+# ---- arm guard: a function that is verified ARM BY ARM (fragments) is only as covered as its list of arms is known --------------------------------
+def arm_heads(path, fn, container, header_re):
+    """the arms of the (first) `match` of `fn` whose header matches header_re: one entry per arm, the constructor paths of its pattern(s) (bindings and
+    guards dropped; `guarded` marks an `if` guard), in source order"""
+    import re
+    from vlib import gen
+    from vlib.rsitems import mask, match_delim, AnchorLost
+    src = gen.load_source(path)
+    s, b, e = src.find_fn(fn, container)
+    body = src.text[b:e + 1]
+    m = mask(body)
+    mt = re.search(header_re, m)
+    if not mt:
+        raise AnchorLost(f"{path}::{fn}: match header {header_re!r} not found")
+    op = mt.end() - 1
+    if m[op] != "{":
+        raise AnchorLost(f"{path}::{fn}: match header {header_re!r} must end in '{{'")
+    cl = match_delim(m, op)
+    heads, i = [], op + 1
+    while i < cl:
+        while i < cl and m[i] in " \n\t,":
+            i += 1
+        if i >= cl:
+            break
+        d, j = 0, i
+        while j < cl:
+            c = m[j]
+            if c in "([{":
+                d += 1
+            elif c in ")]}":
+                d -= 1
+            elif c == "=" and m[j + 1] == ">" and d == 0:
+                break
+            j += 1
+        head = body[i:j]
+        mh = mask(head)
+        # split off a guard (` if ` at depth 0), then the alternatives (`|` at depth 0); keep each alternative's leading path
+        d, g = 0, None
+        for k, c in enumerate(mh):
+            if c in "([{":
+                d += 1
+            elif c in ")]}":
+                d -= 1
+            elif d == 0 and mh[k:k + 4] == " if " or (d == 0 and mh[k:k + 4] == "\nif "):
+                g = k
+                break
+        pat = head if g is None else head[:g]
+        alts, d, last = [], 0, 0
+        mp = mask(pat)
+        for k, c in enumerate(mp):
+            if c in "([{":
+                d += 1
+            elif c in ")]}":
+                d -= 1
+            elif c == "|" and d == 0:
+                alts.append(pat[last:k])
+                last = k + 1
+        alts.append(pat[last:])
+        names = []
+        for a in alts:
+            mn = re.match(r"\s*&?\s*((?:[A-Za-z_]\w*::)*[A-Za-z_]\w*|_)", a)
+            names.append(mn.group(1) if mn else re.sub(r"\s+", " ", a).strip())
+        heads.append(" | ".join(names) + (" if .." if g is not None else ""))
+        k = j + 2
+        while k < cl and m[k] in " \n\t":
+            k += 1
+        if k < cl and m[k] == "{":
+            k = match_delim(m, k) + 1
+        else:
+            d = 0
+            while k < cl:
+                c = m[k]
+                if c in "([{":
+                    d += 1
+                elif c in ")]}":
+                    d -= 1
+                elif c == "," and d == 0:
+                    break
+                k += 1
+        i = k
+    return heads
+
+
+def arm_guard(path, fn, container, header_re, known):
+    """a Raw item (a comment in the generated file) that makes the unit UNDECIDED when the list of arms of `fn`'s match differs from `known` — an arm that was
+    added (or removed, or given a guard) is code no fragment of the unit covers, so the unit cannot be green; it is never an alarm"""
+    from vlib.rsitems import AnchorLost
+
+    def text():
+        heads = arm_heads(path, fn, container, header_re)
+        if heads != known:
+            new = [h for h in heads if h not in known or heads.count(h) != known.count(h)]
+            gone = [h for h in known if h not in heads or heads.count(h) != known.count(h)]
+            raise AnchorLost(f"{path}::{fn}: the arms of the match are not the ones this unit was written for (added / changed: {sorted(set(new))}; missing: {sorted(set(gone))}) — "
+                             f"the function is verified arm by arm, an unknown arm is under no contract")
+        return f"// arm guard: {path}::{fn} has the {len(heads)} arms this unit knows\n"
+    return Raw(text=text, item=f"{path}::{fn} (list of match arms)")
